@@ -272,4 +272,4 @@ package exif2
 // TagParser methods it is handed (the Parse* value decoders above), so its effect is bounded by theirs.
 //@ dep callback exif2.ifdReader.customTagParser
 //@   names p t -> err
-//@   modifies as(p, "*ifdReader").po, stream(as(p, "*ifdReader").reader), as(p, "*ifdReader").buffer.buf, as(p, "*ifdReader").Exif
+//@   modifies as(p, "*exif2.ifdReader").po, stream(as(p, "*exif2.ifdReader").reader), as(p, "*exif2.ifdReader").buffer.buf, as(p, "*exif2.ifdReader").Exif
